@@ -286,6 +286,154 @@ def _expect(r, fn, name, actual, want_src, what, keep=()):
     return False
 
 
+def _harmonic_domain(nsa, deg, order, cname):
+    """Iteration domain of the geopotential accumulation(s) against the specification {(n, m): 2 <= n <= degree,
+    0 <= m <= min(n, order)}, each pair exactly once.  Loop bounds (`range` with affine bounds over the loop variables,
+    the two parameters, 0 / 1 / 2, `min` / `max`) and the dominating comparisons are turned into comparison-only
+    predicates over the symbols n, m, N, M, 0, 1, 2 (an exclusive bound `X + 1` becomes `<= X`: integers) and evaluated
+    on every weak ordering with 0 < 1 < 2, no variable strictly between consecutive constants, M <= N (documented) and
+    N >= 2, M >= 0.  Returns a message for a deviation, None when the domains agree; raises Undecided for bounds it
+    cannot read."""
+    from rsa import orderings as O
+    from rsa.cfg import cfg_of
+    from rsa.util import parents_map
+
+    pm = parents_map(nsa.node)
+    cfg = cfg_of(nsa)
+    accs = [n for n in walk_no_nested(nsa.node) if isinstance(n, ast.AugAssign) and isinstance(n.op, ast.Add) and unparse(n.target) == "acceleration"]
+    if not accs:
+        raise Undecided("nonSphericalAcceleration: no `acceleration += ...` accumulation found", nsa.node)
+    # which loop variable is the degree / the order: first / second index of the coefficient table
+    dvar = ovar = None
+    for n in walk_no_nested(nsa.node):
+        if isinstance(n, ast.Subscript) and unparse(n.value) == cname and isinstance(n.slice, ast.Tuple) and len(n.slice.elts) == 2:
+            a, b = n.slice.elts
+            if isinstance(a, ast.Name):
+                dvar = dvar or a.id
+            if isinstance(b, ast.Name):
+                ovar = ovar or b.id
+    if dvar is None:
+        raise Undecided("nonSphericalAcceleration: the coefficient table is not indexed by a degree variable", nsa.node)
+    clamp = set()  # parameters re-bound to min(itself, other parameter)
+    for n in walk_no_nested(nsa.node):
+        if isinstance(n, ast.Assign) and len(n.targets) == 1 and isinstance(n.targets[0], ast.Name) and n.targets[0].id in (deg, order):
+            v = n.value
+            if isinstance(v, ast.Call) and call_name(v) == "min" and sorted(unparse(a) for a in v.args) == sorted([deg, order]):
+                clamp.add(n.targets[0].id)
+            else:
+                raise Undecided(f"nonSphericalAcceleration: `{unparse(n)}` re-binds a bound of the harmonic sums", n)
+
+    def sym(e):
+        if isinstance(e, ast.Name):
+            if e.id == dvar:
+                return ["n"]
+            if e.id == ovar:
+                return ["m"]
+            if e.id == deg:
+                return ["N", "M"] if deg in clamp else ["N"]
+            if e.id == order:
+                return ["M", "N"] if order in clamp else ["M"]
+        if isinstance(e, ast.Constant) and e.value in (0, 1, 2):
+            return [str(int(e.value))]
+        raise Undecided(f"nonSphericalAcceleration: bound `{unparse(e)}` is not one of the loop variables, the two limits, 0, 1, 2", e)
+
+    def lower(var, e):
+        """var >= e"""
+        if isinstance(e, ast.Call) and call_name(e) == "max":
+            return O.And(*[lower(var, a) for a in e.args])
+        if isinstance(e, ast.BinOp) and isinstance(e.op, ast.Add) and isinstance(e.right, ast.Constant) and e.right.value == 1:
+            return O.And(*[O.Cmp(">", var, s_) for s_ in sym(e.left)])  # var >= x + 1  <=>  var > x
+        ss = sym(e)
+        # a clamped limit as a LOWER bound would be a max, not a conjunction
+        if len(ss) > 1:
+            raise Undecided(f"nonSphericalAcceleration: clamped limit `{unparse(e)}` used as a lower bound", e)
+        return O.Cmp(">=", var, ss[0])
+
+    def upper_excl(var, e):
+        """var < e"""
+        if isinstance(e, ast.Call) and call_name(e) == "min":
+            return O.And(*[upper_excl(var, a) for a in e.args])
+        if isinstance(e, ast.BinOp) and isinstance(e.op, ast.Add) and isinstance(e.right, ast.Constant) and e.right.value == 1:
+            inner = e.left
+            if isinstance(inner, ast.Call) and call_name(inner) == "min":
+                return O.And(*[O.And(*[O.Cmp("<=", var, s_) for s_ in sym(a)]) for a in inner.args])
+            return O.And(*[O.Cmp("<=", var, s_) for s_ in sym(inner)])
+        return O.And(*[O.Cmp("<", var, s_) for s_ in sym(e)])
+
+    def symf(e):
+        ss = sym(e)
+        if len(ss) > 1:
+            raise Undecided(f"nonSphericalAcceleration: clamped limit `{unparse(e)}` in a guard", e)
+        return ss[0]
+
+    sites = []
+    for acc in accs:
+        parts = []
+        bound_vars = set()
+        cur = acc
+        while cur in pm:
+            cur = pm[cur]
+            if isinstance(cur, ast.For):
+                if not isinstance(cur.target, ast.Name) or cur.target.id not in (dvar, ovar):
+                    raise Undecided(f"nonSphericalAcceleration: loop over `{unparse(cur.target)}` around the accumulation", cur)
+                var = "n" if cur.target.id == dvar else "m"
+                it = cur.iter
+                if isinstance(it, ast.Call) and call_name(it) == "reversed" and len(it.args) == 1:
+                    it = it.args[0]
+                if not (isinstance(it, ast.Call) and call_name(it) == "range" and 1 <= len(it.args) <= 2 and not it.keywords):
+                    raise Undecided(f"nonSphericalAcceleration: `{unparse(cur.iter)}` is not a plain range", cur)
+                lo = it.args[0] if len(it.args) == 2 else ast.Constant(value=0)
+                hi = it.args[-1]
+                parts += [lower(var, lo), upper_excl(var, hi)]
+                bound_vars.add(var)
+            elif isinstance(cur, ast.While):
+                raise Undecided("nonSphericalAcceleration: while loop around the accumulation", cur)
+        nd = cfg.node_of(acc)
+        for cid, lab in cfg.control_conditions(nd.id):
+            cn = cfg.nodes[cid]
+            if cn.kind != "cond":
+                continue
+            pr = O.from_ast(cn.ast, symf)
+            parts.append(pr if lab else O.Not(pr))
+        if "m" not in bound_vars:
+            # no order loop: the term is the order-0 one iff it reads the order-0 coefficients
+            block = pm.get(acc)
+            stmts = list(getattr(block, "body", []))
+            txt = " ".join(unparse(x) for x in stmts)
+            if f"{cname}[{dvar}, 0]" in txt and f"{cname}[{dvar}, {ovar}]" not in txt:
+                parts.append(O.Cmp("==", "m", "0"))
+            else:
+                raise Undecided("nonSphericalAcceleration: an accumulation outside any order loop does not read the order-0 coefficients only", acc)
+        if "n" not in bound_vars:
+            raise Undecided("nonSphericalAcceleration: an accumulation outside any degree loop", acc)
+        sites.append(O.And(*parts))
+    spec = O.And(O.Cmp(">=", "n", "2"), O.Cmp("<=", "n", "N"), O.Cmp(">=", "m", "0"), O.Cmp("<=", "m", "n"), O.Cmp("<=", "m", "M"))
+    consts = ["0", "1", "2"]
+    vars_ = ["n", "m", "N", "M"]
+    gaps = [O.Not(O.And(O.Cmp(">", v, a), O.Cmp("<", v, b))) for v in vars_ for a, b in (("0", "1"), ("1", "2"))]
+    assume = O.And(O.Cmp("<", "0", "1"), O.Cmp("<", "1", "2"), O.Cmp("<=", "M", "N"), O.Cmp(">=", "N", "2"), O.Cmp(">=", "M", "0"), *gaps)
+    missing = double = extra = None
+    n_ord = 0
+    for env in O.all_orderings(vars_ + consts, assume):
+        n_ord += 1
+        hits = sum(1 for st in sites if st.ev(env))
+        want = spec.ev(env)
+        if want and hits == 0 and missing is None:
+            missing = O.describe(env)
+        if want and hits > 1 and double is None:
+            double = O.describe(env)
+        if not want and hits and extra is None:
+            extra = O.describe(env)
+    out = []
+    if missing:
+        out.append(f"the harmonic term (n, m) is never accumulated when {missing} (n = degree index, m = order index, N = {deg}, M = {order}): terms inside the configured degree / order are dropped")
+    if double:
+        out.append(f"the harmonic term (n, m) is accumulated more than once when {double}")
+    if extra:
+        out.append(f"a term outside 2 <= n <= N, 0 <= m <= min(n, M) is accumulated when {extra}")
+    return "; ".join(out) if out else None
+
+
 def rule_r3(chk, p, t):
     r = chk.rule(
         "C13.R3",
@@ -308,8 +456,12 @@ def rule_r3(chk, p, t):
         loops = [n for n in walk_no_nested(nsa.node) if isinstance(n, ast.For)]
         its = [unparse(l.iter) for l in loops]
         if its != [f"range(2, {deg} + 1)", f"range({order} + 1)"]:
-            # another loop nest may visit the same (n, m) pairs; equality of iteration spaces is not decided here
-            raise Undecided(f"nonSphericalAcceleration: loop nest {its} is not the recognised `for n in 2..degree: for m in 0..order` form", nsa.node)
+            # another loop nest may visit the same (degree, order) pairs: the iteration domain of every accumulation is
+            # read off its loop bounds and guards and compared with 2 <= n <= degree, 0 <= m <= min(n, order) on every
+            # weak ordering of (n, m, degree, order, 0, 1, 2)
+            msg = _harmonic_domain(nsa, deg, order, c)
+            if msg:
+                bad.append(msg)
         rets = [n for n in walk_no_nested(nsa.node) if isinstance(n, ast.Return)]
         if not rets or canon(rets[0].value) != canon(ast.parse(f"acceleration * {mu} / {rad} ** 2", mode="eval").body):
             bad.append(f"scaling `{unparse(rets[0].value) if rets else None}`")
